@@ -76,6 +76,12 @@ pub struct NetCfg {
     pub foreign_src_ppm: u64,
     /// segment server->client TCP data into several arrivals
     pub tcp_segment_ppm: u64,
+    /// the server side falls silent after this many datagrams reached the network
+    pub udp_reply_budget: Option<u64>,
+    /// the server side stalls after this many stream bytes (further data and FIN are lost)
+    pub tcp_byte_budget: Option<u64>,
+    /// the FIN of the server never arrives (stall at end of stream)
+    pub drop_fin: bool,
 }
 
 impl NetCfg {
@@ -398,6 +404,14 @@ impl World {
 
     fn net_udp_to_client(&mut self, from: SocketAddr, to: SocketAddr, mut data: Vec<u8>, extra: u64) {
         let len = data.len();
+        if let Some(b) = &mut self.net.udp_reply_budget {
+            if *b == 0 {
+                self.stats.fault("server_fell_silent");
+                self.hist.push(Hist::Net { t: self.now, what: "silent", to_client: true, len });
+                return;
+            }
+            *b -= 1;
+        }
         // Find the client socket by its local port.
         let sock = self.socks.iter().position(|s| {
             !s.closed && matches!(&s.kind, SockKind::Udp { local, .. } if local.port() == to.port())
@@ -444,6 +458,28 @@ impl World {
 
     fn net_tcp_to_client(&mut self, conn: usize, seg: TcpSeg) {
         let sock = self.conns[conn].sock;
+        let seg = match seg {
+            TcpSeg::Data(mut data) => {
+                if let Some(b) = &mut self.net.tcp_byte_budget {
+                    if (data.len() as u64) > *b {
+                        data.truncate(*b as usize);
+                        self.stats.fault("stream_stalled");
+                        self.hist.push(Hist::Net { t: self.now, what: "stall", to_client: true, len: data.len() });
+                    }
+                    *b -= data.len() as u64;
+                    if data.is_empty() {
+                        return;
+                    }
+                }
+                TcpSeg::Data(data)
+            }
+            TcpSeg::Fin if self.net.drop_fin || self.net.tcp_byte_budget == Some(0) => {
+                self.stats.fault("fin_lost");
+                self.hist.push(Hist::Net { t: self.now, what: "fin-lost", to_client: true, len: 0 });
+                return;
+            }
+            other => other,
+        };
         match seg {
             TcpSeg::Data(data) => {
                 // Optionally cut into several segments with increasing arrival times.
